@@ -108,6 +108,23 @@ Theorem C09_parse_material_classes :
 Proof. exact parse_material_classes. Qed.
 Print Assumptions C09_parse_material_classes.
 
+(* LIKE n BUT RHO=: the density keyword is stored exactly like the same spelling
+   on a cell card, so the classes above carry over to LIKE n BUT cells *)
+Theorem C09_like_but_rho :
+  forall (toks : list string) (m0 : string) (d0 kmat : option string) (n : number) (pad : nat) (m : marker),
+  parse_material toks = Ok (m0, d0) -> wf_number n = true -> marker_ok n m = true ->
+  cell_material toks kmat (Some (spell n pad m)) =
+    Ok (match kmat with Some x => x | None => m0 end, Some (normal_form n pad)).
+Proof. exact cell_material_rho. Qed.
+Print Assumptions C09_like_but_rho.
+
+(* LIKE n BUT MAT=0 gives a void cell that still carries the base density, which
+   GEOMCOMP then writes as m0_<density> (finding like_but_mat_void) *)
+Theorem C09_like_but_void_refuted :
+  exists toks d, cell_material toks (Some "0") None = Ok ("0", Some d).
+Proof. exact cell_material_void_refuted. Qed.
+Print Assumptions C09_like_but_void_refuted.
+
 (* ------------------------------------------------------------------------ *)
 (* provenance: the filler, not the container                                 *)
 (* ------------------------------------------------------------------------ *)
